@@ -281,6 +281,40 @@ func TestDrv_C18(t *testing.T) {
 			}
 		}
 	}
+	// one ConnectTo option value given to two attackers that take turns: each rotates over the replacements on its own
+	{
+		repl := []string{"10.7.1.1:7001", "10.7.1.2:7002"}
+		shared := vegeta.ConnectTo(map[string][]string{"shared.test:80": repl})
+		recs := [2]*dialRec{{}, {}}
+		var chans [2]<-chan *vegeta.Result
+		var pacers [2]*countPacer
+		for i := range recs {
+			atk := vegeta.NewAttacker(vegeta.Client(&http.Client{Transport: &http.Transport{DialContext: recs[i].dial, DisableKeepAlives: true}}),
+				shared, vegeta.Workers(1), vegeta.MaxWorkers(1), vegeta.Timeout(5*time.Second))
+			pacers[i] = &countPacer{n: 12, gate: make(chan struct{}, 1)}
+			chans[i] = atk.Attack(vegeta.NewStaticTargeter(vegeta.Target{Method: "GET", URL: "http://shared.test:80/"}), pacers[i], 0, "c18")
+		}
+		var per [2][][]string
+		for open := 2; open > 0; {
+			open = 0
+			for i := range chans { // strictly alternating: a result of the first attacker, then one of the second
+				if _, ok := <-chans[i]; ok {
+					open++
+					per[i] = append(per[i], recs[i].take())
+					pacers[i].gate <- struct{}{}
+				}
+			}
+		}
+		for i := range per {
+			runs++
+			tr.Emit("Reset", KV{"mode": "connect", "sequential": true, "resolved": []KV{}, "mapped": repl, "passthru": false, "half": 0,
+				"target": "shared.test:80", "option_value_shared_by_attackers": 2, "attacker": i + 1})
+			for k, d := range per[i] {
+				tr.Emit("Attempt", KV{"k": k + 1, "dialed": d})
+			}
+			tr.Emit("End", nil)
+		}
+	}
 	// every combination in both orders, with a refreshing cache, under concurrency: the race build reports data races
 	for _, order := range []string{"dns", "connect", "dns+connect", "connect+dns"} {
 		rec := &dialRec{}
